@@ -78,6 +78,7 @@ package accessory
 //@ func (a *Accessory) Identify()
 //@   requires a != nil
 //@   modifies heap, callcount
+//@   ensures modelKept()
 
 // listed(m): every characteristic reachable from the container is a member of the attribute database (dbmember)
 //@ pred listed(m) = m != nil && forall(i, 0, len(m.Accessories), m.Accessories[i] != nil && forall(j, 0, len(m.Accessories[i].Services), m.Accessories[i].Services[j] != nil && forall(k, 0, len(m.Accessories[i].Services[j].Characteristics), m.Accessories[i].Services[j].Characteristics[k] != nil && dbmember(ref(m.Accessories[i].Services[j].Characteristics[k])))))
